@@ -75,16 +75,29 @@ theorem PendOK_fromT {st : HSt} (h : PendOK st) {t : TSt} (ht : st.hyb ≤ t.hyb
 theorem PendBelow_fromT {st : HSt} {k : Nat} (h : PendBelow st k) (t : TSt) : PendBelow (fromT st t) k :=
   fun p hp => h p hp
 
-theorem immsOf_lhs {env : CEnv} {lhs : CExpr} {op : String} {ce : CE} {r : ILEffect × CE}
-    (h : compileAssign env lhs op ce = .ok r) : immsOfExpr lhs = [] := by
+theorem LiveOK_regLhsH {st : HSt} (h : LiveOK st) (lhs : CExpr) : LiveOK (regLhsH st lhs) := by
+  cases lhs with
+  | imm l s => simp only [regLhsH]; rw [stAdd_single st h l s]; exact LiveOK_stAdd _ _
+  | _ => exact h
+
+theorem NoGcc_regLhsH {st : HSt} (h : NoGcc st) (lhs : CExpr) : NoGcc (regLhsH st lhs) := by
+  intro p hp
+  rw [regLhsH_pending] at hp
+  exact h p hp
+
+/-- for a target the lowering accepts (local, register, assignable immediate), visiting it first registers
+    exactly the immediates the pure model's pre-pass registers for it -/
+theorem regLhsH_eq {env : CEnv} {lhs : CExpr} {op : String} {ce : CE} {r : ILEffect × CE} {st : HSt}
+    (hl : LiveOK st) (h : compileAssign env lhs op ce = .ok r) : regLhsH st lhs = stAdd st (immsOfExpr lhs) := by
   unfold compileAssign at h
   obtain ⟨cd, _, h⟩ := bind_ok h
   obtain ⟨src0, _, h⟩ := bind_ok h
   obtain ⟨eff, heff, _⟩ := bind_ok h
   unfold destWrite at heff
   split at heff
-  · simp only [immsOfExpr]
-  · simp only [immsOfExpr]
+  · simp only [immsOfExpr, regLhsH, stAdd_nil st hl]
+  · simp only [immsOfExpr, regLhsH, stAdd_nil st hl]
+  · simp only [immsOfExpr, regLhsH]; exact stAdd_single st hl _ _
   · cases heff
 
 theorem utT_width : utT.width = 32 := rfl
@@ -121,7 +134,7 @@ theorem compileStmtH_eq (env : CEnv) :
       simp only [HybFreeS, Bool.and_eq_true] at hf
       simp only [HSameS] at hs
       simp only [compileStmtH, compileStmt]
-      rw [compileExprH_eq env e st hf.2 hs hl hp.noGcc]
+      rw [compileExprH_eq env e (regLhsH st lhs) hf.2 hs (LiveOK_regLhsH hl lhs) (NoGcc_regLhsH hp.noGcc lhs)]
       cases hce : compileExpr env e with
       | error m => rfl
       | ok ce =>
@@ -131,14 +144,15 @@ theorem compileStmtH_eq (env : CEnv) :
         | ok r =>
           obtain ⟨eff, src⟩ := r
           have hnt := nt_compileAssign hf.1 (nt_compileExpr env e hf.2 hce) hca
-          have himm : immsOfExpr lhs = [] := immsOf_lhs hca
-          simp only [map_ok, chk_nt _ _ _ hnt.1, himm, List.nil_append]
+          have himm : regLhsH st lhs = stAdd st (immsOfExpr lhs) := regLhsH_eq hl hca
+          simp only [map_ok, chk_nt _ _ _ hnt.1, himm, stAdd_stAdd]
           rfl
   | .chain l1 l2 op2 e, st, hf, hs, hl, hp => by
       simp only [HybFreeS, Bool.and_eq_true] at hf
       simp only [HSameS] at hs
       simp only [compileStmtH, compileStmt]
-      rw [compileExprH_eq env e st hf.2 hs hl hp.noGcc]
+      rw [compileExprH_eq env e (regLhsH (regLhsH st l1) l2) hf.2 hs (LiveOK_regLhsH (LiveOK_regLhsH hl l1) l2)
+        (NoGcc_regLhsH (NoGcc_regLhsH hp.noGcc l1) l2)]
       cases hce : compileExpr env e with
       | error m => rfl
       | ok ce =>
@@ -159,7 +173,10 @@ theorem compileStmtH_eq (env : CEnv) :
               intro n hn
               have := mem_tmps_mkSeq hn
               simp only [tmpsOfEffects_cons, tmpsOfEffects_nil, hI.1, hO.1, List.append_nil, List.not_mem_nil] at this
-            simp only [map_ok, chk_nt _ _ _ hO.1, chk_nt _ _ _ hseq, immsOf_lhs hca, immsOf_lhs hca2, List.nil_append]
+            have himm1 : regLhsH st l1 = stAdd st (immsOfExpr l1) := regLhsH_eq hl hca2
+            have himm2 : regLhsH (stAdd st (immsOfExpr l1)) l2 = stAdd (stAdd st (immsOfExpr l1)) (immsOfExpr l2) :=
+              regLhsH_eq (LiveOK_stAdd _ _) hca
+            simp only [map_ok, chk_nt _ _ _ hO.1, chk_nt _ _ _ hseq, himm1, himm2, stAdd_stAdd]
             rfl
   | .store w e, st, hf, hs, hl, hp => by
       simp only [HybFreeS] at hf
